@@ -193,6 +193,7 @@ def handle (toks : List String) : P String := do
     pure (verdict (r == (← pBool res)) s!"{r}")
   | ["bloom.probes", h1, h2, k, size, probes] =>
     let ps := Bloom.probesOf (← pNat h1) (← pNat h2) (← pNat k) (← pNat size)
+    let ps := setOf (bitsOf (← pNat size) ps)   -- as a sorted set
     pure (verdict (ps == (← pNatList probes)) (showNatList ps))
   -- Count-Min -----------------------------------------------------------------------------
   | ["cms.new", rows, cols, m] =>
@@ -252,10 +253,10 @@ def handle (toks : List String) : P String := do
     pure (verdict (f == fp && a == (← pNat i1) && b == (← pNat i2)) s!"{f} {a} {b}")
   -- Top-K ---------------------------------------------------------------------------------
   | ["topk.admit.mem", k, heap, x, f, post] =>
-    let h := TopK.admit (← pNat k) (← pHeap heap).toArray x (← pNat f)
+    let h := TopK.offer (← pNat k) (← pHeap heap).toArray x (← pNat f)
     pure (verdict (h.toList == (← pHeap post)) (showHeap h.toList))
   | ["topk.admit.redis", k, z, x, f, post] =>
-    let h := TopK.admitRedis (← pNat k) (← pHeap z) x (← pNat f)
+    let h := TopK.offerRedis (← pNat k) (← pHeap z) x (← pNat f)
     pure (verdict (h == (← pHeap post)) (showHeap h))
   | ["topk.values", heap, vals] =>
     let v := TopK.values (← pHeap heap)
